@@ -683,7 +683,48 @@ func (t *State) verifyTxRWSets(tx *pb.Transaction) (bool, error) {
 		return false, fmt.Errorf("write set not equal")
 	}
 
+	// what the contract code pays out must really be paid by the transaction
+	utxoRWSet := sandBox.UTXORWSet()
+	if !contractTransfersEffective(utxoRWSet.Rset, utxoRWSet.WSet, tx) {
+		return false, fmt.Errorf("contract transfers are not outputs of the transaction")
+	}
+
 	return true, nil
+}
+
+// contractTransfersEffective reports whether the token movements produced by
+// re-executing the contract requests are carried out by the transaction: every
+// output the contract spends is an input of the transaction, and every amount it
+// pays to somebody else than the owners of those inputs is an output of the
+// transaction (change back to the payer may be merged with other change).
+func contractTransfersEffective(contractInputs []*protos.TxInput, contractOutputs []*protos.TxOutput, tx *pb.Transaction) bool {
+	txInputs := map[string]bool{}
+	for _, txInput := range tx.GetTxInputs() {
+		txInputs[utxo.GenUtxoKey(txInput.GetFromAddr(), txInput.GetRefTxid(), txInput.GetRefOffset())] = true
+	}
+	payers := map[string]bool{}
+	for _, conInput := range contractInputs {
+		if !txInputs[utxo.GenUtxoKey(conInput.GetFromAddr(), conInput.GetRefTxid(), conInput.GetRefOffset())] {
+			return false
+		}
+		payers[string(conInput.GetFromAddr())] = true
+	}
+	txOutputs := map[string]int{}
+	for _, txOutput := range tx.GetTxOutputs() {
+		key := fmt.Sprintf("%s_%x_%d", txOutput.GetToAddr(), txOutput.GetAmount(), txOutput.GetFrozenHeight())
+		txOutputs[key]++
+	}
+	for _, conOutput := range contractOutputs {
+		if payers[string(conOutput.GetToAddr())] {
+			continue
+		}
+		key := fmt.Sprintf("%s_%x_%d", conOutput.GetToAddr(), conOutput.GetAmount(), conOutput.GetFrozenHeight())
+		if txOutputs[key] <= 0 {
+			return false
+		}
+		txOutputs[key]--
+	}
+	return true
 }
 
 // verifyAutoTxRWSets verify auto tx read sets and write sets
